@@ -1663,14 +1663,8 @@ impl Relation {
         builder.token(R_ANGLE.into(), ">");
         builder.finish_node();
 
-        let node_profiles = self.0.children().find(|n| n.kind() == PROFILES);
-        if let Some(node_profiles) = node_profiles {
-            let new_root = SyntaxNode::new_root_mut(builder.finish());
-            self.0.splice_children(
-                node_profiles.index()..node_profiles.index() + 1,
-                vec![new_root.into()],
-            );
-        } else {
+        // Add after the existing restriction lists (they are the last part of a relation)
+        {
             let idx = self.0.children_with_tokens().count();
             let new_root = SyntaxNode::new_root_mut(self.0.green().splice_children(
                 idx..idx,
